@@ -27,6 +27,8 @@ RECURSIVE BToIntR(_, _)
 BToIntR(a, acc) == IF a = <<>> THEN acc ELSE BToIntR(Tail(a), acc * 10 + Head(a))
 BToInt(a) == BToIntR(a, 0)
 BFitsInt(a) == Len(a) <= 9
+\* below 2 * 10^9 < 2^31: still a TLC integer (epoch seconds are ten-digit numbers starting with 1)
+BFitsInt2(a) == Len(a) <= 9 \/ (Len(a) = 10 /\ a[1] = 1)
 
 \* comparison: -1, 0, 1
 RECURSIVE BCmpSame(_, _, _)
@@ -52,7 +54,10 @@ BAddR(a, b, i, carry, acc) ==
   THEN IF carry = 0 THEN acc ELSE <<carry>> \o acc
   ELSE LET s == BDig(a, i) + BDig(b, i) + carry
        IN  BAddR(a, b, i + 1, s \div 10, <<s % 10>> \o acc)
-BAdd(a, b) == BNorm(BAddR(a, b, 1, 0, <<>>))
+BAddBig(a, b) == BNorm(BAddR(a, b, 1, 0, <<>>))
+\* (machine arithmetic where the operands and the result fit a TLC integer: same functions, much faster;
+\*  spec/tests/TestSpec.tla compares each fast path with the digit-sequence definition)
+BAdd(a, b) == IF Len(a) <= 9 /\ Len(b) <= 9 THEN BFromInt(BToInt(a) + BToInt(b)) ELSE BAddBig(a, b)
 
 RECURSIVE BSubR(_, _, _, _, _)
 \* requires a >= b
@@ -61,7 +66,8 @@ BSubR(a, b, i, borrow, acc) ==
   ELSE LET s == BDig(a, i) - BDig(b, i) - borrow
        IN  IF s < 0 THEN BSubR(a, b, i + 1, 1, <<s + 10>> \o acc)
                     ELSE BSubR(a, b, i + 1, 0, <<s>> \o acc)
-BSub(a, b) == BNorm(BSubR(a, b, 1, 0, <<>>))
+BSubBig(a, b) == BNorm(BSubR(a, b, 1, 0, <<>>))
+BSub(a, b) == IF BFitsInt2(a) /\ BFitsInt2(b) THEN BFromInt(BToInt(a) - BToInt(b)) ELSE BSubBig(a, b)
 
 \* multiply by a small integer k (k < 2^26 so that 9*k+carry fits)
 RECURSIVE BMulSmallR(_, _, _, _, _)
@@ -79,7 +85,8 @@ RECURSIVE BMulR(_, _, _, _)
 BMulR(a, b, i, acc) ==
   IF i > Len(b) THEN acc
   ELSE BMulR(a, b, i + 1, BAdd(acc, BShift(BMulSmall(a, BDig(b, i)), i - 1)))
-BMul(a, b) == BMulR(a, b, 1, BZero)
+BMulBig(a, b) == BMulR(a, b, 1, BZero)
+BMul(a, b) == IF Len(a) + Len(b) <= 9 THEN BFromInt(BToInt(a) * BToInt(b)) ELSE BMulBig(a, b)
 
 \* long division: quotient and remainder, b # 0
 RECURSIVE BDigitQ(_, _, _)
@@ -91,7 +98,9 @@ BDivR(a, b, i, rem, quo) ==
   ELSE LET r == BNorm(rem \o <<a[i]>>)
            q == BDigitQ(r, b, 0)
        IN  BDivR(a, b, i + 1, BSub(r, BMulSmall(b, q)), Append(quo, q))
-BDivMod(a, b) == BDivR(a, b, 1, BZero, <<>>)
+BDivModBig(a, b) == BDivR(a, b, 1, BZero, <<>>)
+BDivMod(a, b) == IF BFitsInt2(a) /\ BFitsInt2(b) THEN <<BFromInt(BToInt(a) \div BToInt(b)), BFromInt(BToInt(a) % BToInt(b))>>
+                 ELSE BDivModBig(a, b)
 BDiv(a, b) == BDivMod(a, b)[1]
 BMod(a, b) == BDivMod(a, b)[2]
 
@@ -138,7 +147,11 @@ RECURSIVE BFromBaseR(_, _, _)
 BFromBaseR(ds, k, acc) ==
   IF ds = <<>> THEN acc ELSE BFromBaseR(Tail(ds), k, BAdd(BMulSmall(acc, k), BFromInt(Head(ds))))
 BFromBase(ds, k) == BFromBaseR(ds, k, BZero)
-BAnd(a, b) ==
+BAndBig(a, b) ==
   LET r == BAndR(BToBase(a, 2), BToBase(b, 2), 1, <<>>)
   IN  IF r = <<>> THEN BZero ELSE BFromBase(r, 2)
+\* operands below 10^9 (file modes and masks): machine arithmetic, same function (TestSpec checks it against BAndBig)
+RECURSIVE IAnd(_, _)
+IAnd(x, y) == IF x = 0 \/ y = 0 THEN 0 ELSE (x % 2) * (y % 2) + 2 * IAnd(x \div 2, y \div 2)
+BAnd(a, b) == IF Len(a) <= 9 /\ Len(b) <= 9 THEN BFromInt(IAnd(BToInt(a), BToInt(b))) ELSE BAndBig(a, b)
 =============================================================================
